@@ -241,6 +241,13 @@ func (rd *realDecoder) getCompactString() (string, error) {
 
 	length := int(n - 1)
 
+	if length < 0 {
+		return "", errInvalidStringLength
+	} else if length > rd.remaining() {
+		rd.off = len(rd.raw)
+		return "", ErrInsufficientData
+	}
+
 	tmpStr := string(rd.raw[rd.off : rd.off+length])
 	rd.off += length
 	return tmpStr, nil
@@ -256,6 +263,9 @@ func (rd *realDecoder) getCompactNullableString() (*string, error) {
 
 	if length < 0 {
 		return nil, err
+	} else if length > rd.remaining() {
+		rd.off = len(rd.raw)
+		return nil, ErrInsufficientData
 	}
 
 	tmpStr := string(rd.raw[rd.off : rd.off+length])
